@@ -226,6 +226,116 @@ fn expected_rules(rules : &[RuleAst]) -> Option<Vec<(Vec<String>, Vec<String>, V
     Some(out)
 }
 
+
+// ---------- an independent reading of the format (stack-based, not ruler's recursive spans) ----------
+
+#[derive(Clone, Debug, PartialEq)]
+enum RefTree { Leaf, Dir(BTreeMap<Vec<u8>, RefTree>) }
+
+/// Ok(paths in canonical order) or the set of defect kinds present in the section
+pub fn ref_bundle(lines : &[&str]) -> Result<Vec<String>, std::collections::BTreeSet<&'static str>>
+{
+    let mut defects = std::collections::BTreeSet::new();
+    if lines.is_empty() { defects.insert("Empty"); return Err(defects); }
+    if lines.iter().any(|l| l.chars().all(|c| c == '\t')) { defects.insert("ContainsEmptyLines"); return Err(defects); }
+    // (level, name) pairs; every line may be at most one level deeper than the one before, the first at 0
+    let parsed : Vec<(usize, &str)> = lines.iter().map(|l| { let lvl = l.chars().take_while(|c| *c == '\t').count(); (lvl, &l[lvl..]) }).collect();
+    let mut prev : Option<usize> = None;
+    for (lvl, _) in parsed.iter()
+    {
+        let ok = match prev { None => *lvl == 0, Some(p) => *lvl <= p + 1 };
+        if !ok { defects.insert("WrongIndent"); }
+        prev = Some(*lvl);
+    }
+    // with broken indentation the tree is not well defined; ruler may meet a contradiction before it reaches
+    // the badly indented line, so either kind is acceptable then
+    if !defects.is_empty() { defects.insert("Contradiction"); return Err(defects); }
+    // build the forest with an explicit stack of open directories; children kept in document order first
+    #[derive(Debug)]
+    struct N { name : String, kids : Vec<N> }
+    fn insert(forest : &mut Vec<N>, path : &[usize], n : N) { if path.is_empty() { forest.push(n); } else { insert(&mut forest[path[0]].kids, &path[1..], n); } }
+    let mut forest : Vec<N> = vec![];
+    let mut open : Vec<usize> = vec![];   // index path of the most recent node at each level
+    for (lvl, name) in parsed.iter()
+    {
+        open.truncate(*lvl);
+        fn count(forest : &Vec<N>, path : &[usize]) -> usize { if path.is_empty() { forest.len() } else { count(&forest[path[0]].kids, &path[1..]) } }
+        let idx = count(&forest, &open);
+        insert(&mut forest, &open.clone(), N{name : name.to_string(), kids : vec![]});
+        open.push(idx);
+    }
+    // canonicalise bottom-up; same-named siblings must be the same thing
+    fn canon(nodes : &Vec<N>, defects : &mut std::collections::BTreeSet<&'static str>) -> BTreeMap<Vec<u8>, RefTree>
+    {
+        let mut m : BTreeMap<Vec<u8>, RefTree> = BTreeMap::new();
+        for n in nodes
+        {
+            let t = if n.kids.is_empty() { RefTree::Leaf } else { RefTree::Dir(canon(&n.kids, defects)) };
+            match m.get(n.name.as_bytes())
+            {
+                Some(prev) => if *prev != t { defects.insert("Contradiction"); },
+                None => { m.insert(n.name.as_bytes().to_vec(), t); },
+            }
+        }
+        m
+    }
+    let c = canon(&forest, &mut defects);
+    if !defects.is_empty() { return Err(defects); }
+    fn flat(m : &BTreeMap<Vec<u8>, RefTree>, prefix : &str, out : &mut Vec<String>)
+    {
+        for (k, v) in m
+        {
+            let name = String::from_utf8_lossy(k).to_string();
+            match v { RefTree::Leaf => out.push(format!("{}{}", prefix, name)), RefTree::Dir(kids) => flat(kids, &format!("{}{}/", prefix, name), out) }
+        }
+    }
+    let mut out = vec![];
+    flat(&c, "", &mut out);
+    Ok(out)
+}
+
+#[derive(Debug)]
+pub enum RefOutcome
+{
+    Valid(Vec<(Vec<String>, Vec<String>, Vec<String>)>),
+    /// the first rule with a defective path section, and the kinds of defect in that section
+    BundleDefect(std::collections::BTreeSet<&'static str>),
+    Malformed,
+}
+
+/// the documented format read as a pattern over line kinds: E* ( T+ ':' T* ':' T* ':' E* )*
+pub fn ref_file(text : &str) -> RefOutcome
+{
+    let lines : Vec<&str> = text.split('\n').collect();
+    let mut i = 0;
+    let n = lines.len();
+    let mut rules = vec![];
+    let is_text = |l : &str| l != "" && l != ":";
+    loop
+    {
+        while i < n && lines[i] == "" { i += 1; }
+        if i == n { return RefOutcome::Valid(rules); }
+        let t0 = i;
+        while i < n && is_text(lines[i]) { i += 1; }
+        if i == t0 || i == n || lines[i] != ":" { return RefOutcome::Malformed; }
+        let targets = &lines[t0..i];
+        i += 1;
+        let s0 = i;
+        while i < n && is_text(lines[i]) { i += 1; }
+        if i == n || lines[i] != ":" { return RefOutcome::Malformed; }
+        let sources = &lines[s0..i];
+        i += 1;
+        let c0 = i;
+        while i < n && is_text(lines[i]) { i += 1; }
+        if i == n || lines[i] != ":" { return RefOutcome::Malformed; }
+        let command : Vec<String> = lines[c0..i].iter().map(|s| s.to_string()).collect();
+        i += 1;
+        let t = match ref_bundle(targets) { Ok(t) => t, Err(d) => return RefOutcome::BundleDefect(d) };
+        let s = match ref_bundle(sources) { Ok(s) => s, Err(d) => return RefOutcome::BundleDefect(d) };
+        rules.push((t, s, command));
+    }
+}
+
 /// run the parser on one text: correspondence case + monitors that need no model
 fn run_text(out : &mut Out, kind : &str, text : &str, expected : Option<&Vec<(Vec<String>, Vec<String>, Vec<String>)>>)
 {
@@ -249,6 +359,32 @@ fn run_text(out : &mut Out, kind : &str, text : &str, expected : Option<&Vec<(Ve
         Err(_) => "Eof".to_string(),
     }));
     out.case(sexp::paren(&["parse".to_string(), sexp::hex(text.as_bytes())]), show_parse(&r), !text.is_empty());
+
+    // the independent reading of the format decides what must happen
+    match (ref_file(text), &r)
+    {
+        (RefOutcome::Valid(exp), Ok(rules)) =>
+        {
+            let got : Vec<(Vec<String>, Vec<String>, Vec<String>)> = rules.iter().map(|r| (r.targets.clone(), r.sources.clone(), r.command.clone())).collect();
+            if got != exp { out.violation("C14:well-formed-misparsed", "a well-formed file does not yield exactly the written targets, sources and command lines in canonical order".to_string(), Json::s(text)); }
+        },
+        (RefOutcome::Valid(_), Err(e)) => out.violation("C14:well-formed-rejected", format!("a well-formed file is rejected: {}", e), Json::s(text)),
+        (RefOutcome::BundleDefect(kinds), Ok(_)) => out.violation("C14:malformed-accepted", format!("a file whose path section has {:?} is accepted", kinds), Json::s(text)),
+        (RefOutcome::BundleDefect(kinds), Err(e)) =>
+        {
+            let kind = match e
+            {
+                ParseError::BundleError(_, bundle::ParseError::Empty) => "Empty",
+                ParseError::BundleError(_, bundle::ParseError::ContainsEmptyLines(_)) => "ContainsEmptyLines",
+                ParseError::BundleError(_, bundle::ParseError::Contradiction(_, _)) => "Contradiction",
+                ParseError::BundleError(_, bundle::ParseError::WrongIndent(_)) => "WrongIndent",
+                _ => "not-a-bundle-error",
+            };
+            if !kinds.contains(kind) { out.violation("C14:wrong-error-kind", format!("the first defective path section has {:?} but the error is {}", kinds, e), Json::s(text)); }
+        },
+        (RefOutcome::Malformed, Ok(_)) => out.violation("C14:malformed-accepted", "a file that does not follow the three-section format is accepted".to_string(), Json::s(text)),
+        (RefOutcome::Malformed, Err(_)) => {},
+    }
 
     let lines : Vec<&str> = text.split('\n').collect();
     match &r
